@@ -272,3 +272,152 @@ def _inline_at(g, blk, idx, h, tag):
     # (&X)->f ==> X.f after substituting `&X` for a pointer parameter
     import alias as _alias
     _alias._fix_addr_members(g["blocks"])
+
+
+# ----------------------------------------------------------------------------------------------------------------------------------
+# Pure one-expression static helpers (`static size_t f(a) { return a + a / 3; }`) are a matter of taste: the canonical fact base has
+# their calls replaced by the returned expression, in the reference tree and in any later tree alike, so that writing the expression
+# out by hand (or wrapping it in such a helper) changes nothing the rules can see.
+def _pure_expr_helper(f):
+    if not f.get("static") or f.get("variadic") or f.get("ret_t", "void") == "void":
+        return None
+    rets = []
+    calls = []
+    for b in f["blocks"]:
+        if b.get("term", {}).get("cond") is not None:
+            return None
+        for ev in b["events"]:
+            k = ev.get("ev")
+            if k == "ret":
+                rets.append(ev)
+            elif k == "call":
+                calls.append(ev)
+            else:
+                return None
+    if len(rets) != 1 or rets[0].get("e") is None:
+        return None
+    expr = rets[0]["e"]
+    bad = []
+
+    def chk(n):
+        if n.get("k") in ("assign",) or (n.get("k") == "un" and n.get("op") in ("++", "--", "&")):
+            bad.append(n)
+        if n.get("k") in ("stmtexpr", "unknown", "cond") and n.get("k") != "cond":
+            bad.append(n)
+    _walk(expr, chk)
+    if bad:
+        return None
+    # every call event is a sub-expression of the returned expression
+    sub = [_S(n) for n in _subnodes(expr) if n.get("k") == "call"]
+    if any(_S(c["e"]) not in sub for c in calls):
+        return None
+    if any(_S(c["e"]).find('"callee": "%s"' % f["name"]) >= 0 for c in calls):
+        return None
+    return expr, calls
+
+
+def _subnodes(e):
+    out = []
+    _walk(e, out.append)
+    return out
+
+
+def _has_effect(e):
+    return any(n.get("k") in ("call", "assign") or (n.get("k") == "un" and n.get("op") in ("++", "--")) for n in _subnodes(e))
+
+
+def inline_pure_expr_helpers(unit_facts):
+    """Replace calls of pure one-expression static helpers of this unit by the returned expression (mutates; returns helper names)."""
+    helpers = {}
+    for f in unit_facts["functions"]:
+        # never a function whose address is taken (comparators bound in tables)
+        h = _pure_expr_helper(f)
+        if h is not None and not any(x == 2 for g in unit_facts["functions"] for x in _mentions_call(g, f["name"])):
+            helpers[f["name"]] = (f, h[0], h[1])
+    if not helpers:
+        return []
+    used = set()
+    for _round in range(3):
+        changed = False
+        for g in unit_facts["functions"]:
+            for b in g["blocks"]:
+                i = 0
+                while i < len(b["events"]):
+                    ev = b["events"][i]
+                    if ev.get("ev") == "call" and ev["e"].get("callee") in helpers and g["name"] != ev["e"]["callee"]:
+                        hf, expr, hcalls = helpers[ev["e"]["callee"]]
+                        args = ev["e"].get("args", [])
+                        pn = [p["name"] for p in hf["params"]]
+                        cnt = {n: sum(1 for x in _subnodes(expr) if x.get("k") == "var" and x.get("vk") == "param" and x.get("name") == n) for n in pn}
+                        if len(args) != len(pn) or any(_has_effect(a) and cnt[n] != 1 for a, n in zip(args, pn)):
+                            i += 1
+                            continue
+                        sub = dict(zip(pn, args))
+
+                        def inst(e):
+                            e = copy.deepcopy(e)
+
+                            def rw(node):
+                                if isinstance(node, dict):
+                                    for k, v in list(node.items()):
+                                        if isinstance(v, dict):
+                                            if v.get("k") == "var" and v.get("vk") == "param" and v.get("name") in sub:
+                                                node[k] = copy.deepcopy(sub[v["name"]])
+                                            else:
+                                                rw(v)
+                                        elif isinstance(v, list):
+                                            for j, x in enumerate(v):
+                                                if isinstance(x, dict) and x.get("k") == "var" and x.get("vk") == "param" and x.get("name") in sub:
+                                                    v[j] = copy.deepcopy(sub[x["name"]])
+                                                else:
+                                                    rw(x)
+                            box = {"e": e}
+                            rw(box)
+                            return box["e"]
+                        callkey = _S(ev["e"])
+                        newexpr = inst(expr)
+                        newcalls = [{"line": ev["line"], "ev": "call", "e": inst(c["e"])} for c in hcalls]
+                        b["events"][i:i + 1] = newcalls
+
+                        def repl(container):
+                            if isinstance(container, dict):
+                                for k, v in list(container.items()):
+                                    if isinstance(v, dict):
+                                        if v.get("k") == "call" and _S(v) == callkey:
+                                            container[k] = copy.deepcopy(newexpr)
+                                        else:
+                                            repl(v)
+                                    elif isinstance(v, list):
+                                        for j, x in enumerate(v):
+                                            if isinstance(x, dict) and x.get("k") == "call" and _S(x) == callkey:
+                                                v[j] = copy.deepcopy(newexpr)
+                                            else:
+                                                repl(x)
+                            elif isinstance(container, list):
+                                for x in container:
+                                    repl(x)
+                        # the enclosing statement (and the block terminator) follow the call event in the same block
+                        repl(b["events"][i + len(newcalls):])
+                        if "term" in b:
+                            repl(b["term"])
+                        # a short-circuit / conditional operator can put the enclosing expression into a later block
+                        for b2 in g["blocks"]:
+                            if b2 is not b:
+                                repl(b2["events"])
+                                if "term" in b2:
+                                    repl(b2["term"])
+                        used.add(hf["name"])
+                        changed = True
+                        i += len(newcalls)
+                    else:
+                        i += 1
+        if not changed:
+            break
+    _import_alias_fix(unit_facts)
+    return sorted(used)
+
+
+def _import_alias_fix(unit_facts):
+    import alias as _alias
+    for g in unit_facts["functions"]:
+        _alias._fix_addr_members(g["blocks"])
